@@ -1,4 +1,4 @@
-package main
+package core
 
 import (
 	"bytes"
@@ -25,10 +25,10 @@ func buffersIntact() bool {
 	return true
 }
 
-// unhex decodes the driver's hex with zero-run coding ("z<count>.", "-" = empty) into a fresh
+// Unhex decodes the driver's hex with zero-run coding ("z<count>.", "-" = empty) into a fresh
 // buffer whose capacity equals its length (so an over-read past the slice is a Go panic too),
 // and registers it for the immutability check.
-func unhex(s string) []byte {
+func Unhex(s string) []byte {
 	out := make([]byte, 0, len(s)/2)
 	for i := 0; i < len(s); {
 		c := s[i]
@@ -58,16 +58,16 @@ func unhex(s string) []byte {
 	return exact
 }
 
-func hx(b []byte) string { return hex.EncodeToString(b) }
+func Hx(b []byte) string { return hex.EncodeToString(b) }
 
-func b2s(b bool) string {
+func B2s(b bool) string {
 	if b {
 		return "1"
 	}
 	return "0"
 }
 
-func atoi(s string) int {
+func Atoi(s string) int {
 	n, err := strconv.Atoi(s)
 	if err != nil {
 		panic("bad int in case line: " + s)
@@ -75,10 +75,10 @@ func atoi(s string) int {
 	return n
 }
 
-// canonVal renders a decoded Go value in the canonical text of the Lean side (GoVal.show):
+// CanonVal renders a decoded Go value in the canonical text of the Lean side (GoVal.show):
 // nil "~", bool "T"/"F", every integer kind "i<decimal>", float64 "d<bits>", float32 "e<bits>",
 // string "s<hex>", slices "[a,b]", maps "{<hexkey>:v,...}" sorted by key bytes.
-func canonVal(v interface{}) string {
+func CanonVal(v interface{}) string {
 	var sb strings.Builder
 	writeCanon(&sb, v)
 	return sb.String()
